@@ -775,16 +775,22 @@ Proof.
   apply Forall_forall. intros kv Hin. rewrite Forall_forall in Hgq. exact (g_cs _ (Hgq kv Hin)).
 Qed.
 
+Lemma ctype_eqb_spec a b : ctype_eqb a b = true <-> a = b.
+Proof.
+  unfold ctype_eqb. rewrite !andb_true_iff, !str_eqb_spec.
+  unfold dict_eqb_exact. rewrite (list_eqb_spec _ (pair_eqb_spec _ _ str_eqb_spec str_eqb_spec)).
+  destruct a, b; simpl. split; [intros [[-> ->] ->]; reflexivity|intro E; injection E as -> -> ->; auto].
+Qed.
+
 Theorem mime_holds ct : wf_ct ct = true -> spec_okb (IMime ct) (model (IMime ct)) = true.
 Proof.
   intro Hwf. destruct (mime_roundtrip ct Hwf) as [ct' [E [E1 [E2 P]]]].
-  cbn [spec_okb model]. rewrite E. unfold ct_eqb, canon_ct. cbn [ct_type ct_sub ct_params].
-  rewrite E1, E2, !str_eqb_refl. cbn [andb].
+  cbn [spec_okb model]. rewrite E. rewrite (proj2 (ctype_eqb_spec ct ct) eq_refl). cbn [andb survives].
+  unfold ct_eqb. rewrite E1, E2, !str_eqb_refl. cbn [andb].
   apply dict_eqb_perm.
-  - apply Permutation_sym. etransitivity; [exact P|]. apply isort_perm.
+  - apply Permutation_sym. exact P.
   - destruct (wf_ct_unpack ct Hwf) as [_ [_ [Hnd _]]]. exact Hnd.
 Qed.
-
 
 (* ================= 8. the model meets the statement ================= *)
 Theorem model_meets_spec i : wf i = true -> finding_F16 i = false -> spec_okb i (model i) = true.
@@ -862,7 +868,7 @@ Qed.
 
 Theorem spec_okb_sound i o : spec_okb i o = true -> Spec i o.
 Proof.
-  destruct i as [s|d|ct chunks|cs data|r|r|ta ca tb cb|ct], o as [ct' b t|ct' b|b t|runs|cr rc i1 r1 i2 r2|cp sm c1 c2 ra og|e ne|res];
+  destruct i as [s|d|ct chunks|cs data|r|r|ta ca tb cb|ct], o as [ct' b t|ct' b|b t|runs|cr rc i1 r1 i2 r2|cp sm c1 c2 ra og|e ne|echo res];
     cbn [spec_okb Spec]; try discriminate; intro H.
   - apply andb_true_iff in H as [H1 H2]. split; [apply tres_eqb_spec; exact H1|apply text_okb_sound; exact H2].
   - apply tres_eqb_spec. exact H.
@@ -894,6 +900,7 @@ Proof.
     apply andb_true_iff in H as [H1 H2]. apply (proj1 (bool_eqb_spec _ _)) in H1. apply (proj1 (bool_eqb_spec _ _)) in H2.
     split; [|exact H2]. rewrite H1, andb_true_iff, ct_eqb_iff. unfold bytes_eqb. rewrite bytes_eqb_spec. tauto.
   - (* mime *)
+    apply andb_true_iff in H as [H0 H]. apply ctype_eqb_spec in H0. split; [exact H0|].
     destruct res as [c|]; [|discriminate]. exists c. split; [reflexivity|apply ct_eqb_iff; exact H].
 Qed.
 
@@ -901,12 +908,6 @@ Qed.
 Lemma perr_eqb_spec a b : perr_eqb a b = true <-> a = b.
 Proof. destruct a, b; simpl; split; congruence. Qed.
 
-Lemma ctype_eqb_spec a b : ctype_eqb a b = true <-> a = b.
-Proof.
-  unfold ctype_eqb. rewrite !andb_true_iff, !str_eqb_spec.
-  unfold dict_eqb_exact. rewrite (list_eqb_spec _ (pair_eqb_spec _ _ str_eqb_spec str_eqb_spec)).
-  destruct a, b; simpl. split; [intros [[-> ->] ->]; reflexivity|intro E; injection E as -> -> ->; auto].
-Qed.
 
 Lemma bres_eqb_spec a b : bres_eqb a b = true <-> alpha_b a = alpha_b b.
 Proof.
@@ -920,14 +921,12 @@ Proof. apply list_eqb_spec. apply pair_eqb_spec; [apply tres_eqb_spec|apply Nat.
 Lemma oexn_eqb_spec (a b : option exn) : option_eqb exn_eqb a b = true <-> a = b.
 Proof. apply option_eqb_spec. apply exn_eqb_spec. Qed.
 
-Lemma rmime_eqb_spec (a b : res ctype perr) : res_eqb ctype_eqb perr_eqb a b = true <-> a = b.
-Proof. apply res_eqb_spec; [apply ctype_eqb_spec|apply perr_eqb_spec]. Qed.
 
 Theorem obs_eqb_spec a b : obs_eqb a b = true <-> alpha a = alpha b.
 Proof.
   destruct a, b; cbn [obs_eqb alpha]; try (split; [discriminate|discriminate]);
     rewrite ?andb_true_iff, ?ctype_eqb_spec, ?bytes_eqb_spec, ?tres_eqb_spec, ?runs_eqb_spec, ?oexn_eqb_spec,
-            ?bool_eqb_spec, ?bres_eqb_spec, ?rmime_eqb_spec;
+            ?bool_eqb_spec, ?bres_eqb_spec;
     (split; [intro H; decompose [and] H; congruence | intro E; injection E; intros; subst; repeat split; assumption]).
 Qed.
 
